@@ -66,6 +66,34 @@ def harness(sym):
     _check_completed_listed(sym, sc, TEMPLATES[t], t)
 
 
+def harness_generated(sym):
+    """Run log of every tick for methods assembled by solver selectors (props/gen_methods.py), with an optional user event."""
+    from props.gen_methods import generate, Infeasible
+    sh = sym.shard
+    try:
+        pc = generate(sym, sh["slots"], sh["body"], sh.get("watch", False), sh.get("uod", False), sh.get("first"), sh.get("blocks", 2), tuple(sh.get("pre", ())))
+    except Infeasible:
+        sym.assume(False)
+    n = 2 * pc.count("\n") + 3 * pc.count("Wait:") + (6 if "CmdA" in pc else 0) + 8
+    sc = run_scenario(sym, "generated", n, pcode=pc, event_kinds=tuple(sh.get("events", ())), collect_runlog=True)
+    sym.check(not sc.tick_errors, "tick-raised", lambda: f"{pc!r}: Engine.tick raised {sc.tick_errors[:1]}")
+    for tick, log in enumerate(sc.runlogs):
+        _check_log(sym, log, f"generated {pc!r} tick {tick} events {sc.events and [(e['kind'], e['tick']) for e in sc.events]}")
+    _check_completed_listed(sym, sc, pc, "generated " + repr(pc))
+
+
+def _gen_shards(tier):
+    cfgs = []
+    if tier == "quick":
+        cfgs += [{"slots": 2, "body": 2, "blocks": 2, "first": "block", "uod": True}]
+        cfgs += [{"slots": 2, "body": 2, "blocks": 1, "first": "watch", "watch": True, "in1": [2, 99]}]
+    else:
+        cfgs += [{"slots": 3, "body": 2, "blocks": 2, "first": f, "uod": True} for f in ("mark", "block", "uod")]
+        cfgs += [{"slots": 2, "body": 2, "blocks": 2, "first": f, "watch": True, "in1": [a, 99]} for f in ("block", "watch") for a in (0, 4)]
+        cfgs += [{"slots": 2, "body": 2, "blocks": 2, "first": "block", "uod": True, "events": [ev]} for ev in EVENTS]
+    return [dict(c, pre=[p0, p1]) for c in cfgs for p0 in range(7) for p1 in range(7)]
+
+
 def harness_times(sym):
     """Symbolic tick times: ordering of the items' start/end times is decided by the solver."""
     from props.engine_common import engine_rig
@@ -106,7 +134,16 @@ def _shards(tier):
     return out
 
 
-OBLIGATIONS = [
+_GENERATED = Obligation(
+    name="generated_methods", kind="crosshair", harness=harness_generated, shards=_gen_shards, cpu_budget={"quick": 400.0, "thorough": 3000.0},
+    encoded=["openpectus.lang.exec.runlog:RuntimeInfo.get_runlog", "openpectus.lang.exec.runlog:RuntimeInfo._get_record_runlog_items",
+             "openpectus.lang.exec.tracking:Tracking.mark_started", "openpectus.lang.exec.tracking:Tracking.mark_completed"],
+    symbolic="the kind of every item of the method (selectors over Mark / Wait / UOD command / Block / End block / End blocks / Watch), UOD command duration; in the event shards the kind's tick and the targeted run-log item",
+    bounds={"quick": "first item a Block: 2 top-level items, bodies of 2 items, at most 2 blocks, one UOD command; first item a Watch (condition true from tick 2): 2 top-level items, one block",
+            "thorough": "3 top-level items; a Watch with the condition true from tick 0 / 4; one user event (Stop, Restart, Pause, Hold, cancel, force) at a solver-chosen tick on the block-first methods"},
+    assumptions=["the run log is taken after every tick", "tick interval fixed; fake hardware; log statements removed at import"])
+
+OBLIGATIONS = [_GENERATED,
     Obligation(name="every_tick", kind="crosshair", harness=harness, shards=_shards, cpu_budget={"quick": 400.0, "thorough": 2400.0},
                encoded=["openpectus.lang.exec.runlog:RuntimeInfo.get_runlog", "openpectus.lang.exec.runlog:RuntimeInfo._get_record_runlog_items",
                         "openpectus.lang.exec.tracking:Tracking.mark_started", "openpectus.lang.exec.tracking:Tracking.mark_completed",
